@@ -204,7 +204,7 @@ def main(tier, seed):
             if o[0] == "other" and o[1] == "TypeError" and "unhashable" in repr(c) + "":
                 pass
             if o[0] == "other" and o[1] == "TypeError" and o[2].startswith("parser/rule.py") and \
-                    c["kind"] == "type" and findings.spec_has(c["spec"], lambda s: isinstance(s, tuple) and s and s[0] in ("set", "dict")):
+                    c["kind"] == "type" and findings.spec_has(c["spec"], lambda s: isinstance(s, tuple) and s and s[0] in ("set", "setc", "dict")):
                 known_hits["C04-unhashable"] = known_hits.get("C04-unhashable", 0) + 1
                 continue
             if o[0] == "recursion":
